@@ -1,6 +1,7 @@
 package consul
 
 import (
+	"bytes"
 	"fmt"
 	"log"
 	"net"
@@ -9,6 +10,7 @@ import (
 	"strconv"
 	"strings"
 
+	"github.com/fabiolb/fabio/route"
 	"github.com/hashicorp/consul/api"
 )
 
@@ -94,16 +96,31 @@ func (r routecmd) build() []string {
 				cfg += " weight " + weight
 			}
 			if len(svctags) > 0 {
-				cfg += " tags " + strconv.Quote(strings.Join(svctags, ","))
+				cfg += " tags \"" + strings.Join(svctags, ",") + "\""
 			}
 			if len(ropts) > 0 {
-				cfg += " opts " + strconv.Quote(strings.Join(ropts, " "))
+				cfg += " opts \"" + strings.Join(ropts, " ") + "\""
+			}
+
+			// The command is built from data registered by the service. Make
+			// sure that it is exactly one valid 'route add' command since a
+			// single invalid line prevents all further routing table updates.
+			if !validRouteAdd(cfg) {
+				log.Printf("[WARN] consul: Skipping invalid route %q of service %q", cfg, name)
+				continue
 			}
 
 			config = append(config, cfg)
 		}
 	}
 	return config
+}
+
+// validRouteAdd returns true if cmd is accepted by the route
+// command parser as exactly one 'route add' command.
+func validRouteAdd(cmd string) bool {
+	defs, err := route.Parse(bytes.NewBufferString(cmd))
+	return err == nil && len(defs) == 1 && defs[0].Cmd == route.RouteAddCmd
 }
 
 // parseURLPrefixTag expects an input in the form of 'tag-host/path[ opts]'
